@@ -67,6 +67,7 @@ package l1infotreesync
 // under the last root, or a leaf that differs (a storage fault is an error, never "new")
 //@   ensures[new-means-empty-tree-absent-leaf-or-different-leaf] (result1 == nil && result0) ==> rootLastIdx(p.rollupExitTree.Tree) == -1 || exists(h, 1, 33, !rhtHas(p.rollupExitTree.Tree)[desc(rhtL(p.rollupExitTree.Tree), rhtR(p.rollupExitTree.Tree), rootHash(p.rollupExitTree.Tree)[rootLastIdx(p.rollupExitTree.Tree)], uint32(event.RollupID - 1), h)]) || desc(rhtL(p.rollupExitTree.Tree), rhtR(p.rollupExitTree.Tree), rootHash(p.rollupExitTree.Tree)[rootLastIdx(p.rollupExitTree.Tree)], uint32(event.RollupID - 1), 0) != event.ExitRoot
 //@   ensures[result-only-without-error] result1 != nil ==> !result0
+//@   ensures[an-empty-tree-or-an-absent-leaf-is-not-an-error] result1 != nil ==> !isErr(result1, db.ErrNotFound)
 
 //@ extern github.com/russross/meddler.Insert@l1infotreesync.(*processor).processVerifyBatches (db, table, src)
 //@   modifies stmtFail
